@@ -240,6 +240,49 @@ func Groups(opts []cat.Opts, cb bool) []*cat.Catalog {
 	return out
 }
 
+// SoftNest is the soft-group motif: the feeders of Groups (c1 also provides T3, c2 flattens)
+// and a consumer whose parameters hold a soft group and the single key T3 in every layout of
+// one object, two objects and nested objects (the soft field before / after / inside / outside
+// the nested object, two levels deep), plus a hard group of the same name next to the soft one.
+// The consumer is the invoked function itself (i3) and a constructor (c3, behind i1), so that
+// with one fault its parameters are built a second time.
+func SoftNest(opts []cat.Opts, cb bool) []*cat.Catalog {
+	var out []*cat.Catalog
+	grp := func(k string) cat.Result { return cat.Result{Ks: []string{k}, M: "grp"} }
+	flat := func(k string, n int) cat.Result { return cat.Result{Ks: []string{k}, M: "flat", N: n} }
+	pp := func(k, m string, o int, path ...int) cat.Param { return cat.Param{K: k, M: m, O: o, P: path} }
+	layouts := [][]cat.Param{
+		{pp("T2@g", "soft", 1), pp("T3", "req", 1)},
+		{pp("T3", "req", 1), pp("T2@g", "soft", 1)},
+		{pp("T2@g", "soft", 1), pp("T3", "req", 1, 1)},
+		{pp("T3", "req", 1, 1), pp("T2@g", "soft", 1)},
+		{pp("T2@g", "soft", 1, 1), pp("T3", "req", 1, 1)},
+		{pp("T2@g", "soft", 1, 1), pp("T3", "req", 1)},
+		{pp("T2@g", "soft", 1), pp("T3", "req", 2)},
+		{pp("T2@g", "soft", 1), pp("T0", "opt", 1, 1), pp("T3", "req", 1, 1, 1)},
+		{pp("T2@g", "soft", 1), pp("T3", "opt", 1, 1), pp("T2@h", "soft", 1, 1), pp("T0", "opt", 1)},
+		{pp("T2@g", "soft", 1), pp("T2@g", "grp", 1, 1)},
+		{pp("T2@g", "soft", 1, 1), pp("T2@g", "grp", 1)},
+	}
+	for _, p1 := range places() {
+		for pi2, p2 := range places() {
+			for li, lay := range layouts {
+				for _, s3 := range []string{"r", "b"} {
+					c := &cat.Catalog{Parent: copyTree(chainTree), Fns: map[string]*cat.Fn{}}
+					c.Fns["c1"] = ctor(p1, nil, grp("T2@g"), cat.Result{Ks: []string{"T3"}, M: "one"})
+					c.Fns["c2"] = ctor(p2, nil, flat("T2@g", []int{2, 1, 0}[(pi2+li)%3]), one("T0"))
+					c.Fns["c3"] = ctor(Place{s3, false}, append([]cat.Param(nil), lay...), one("T1"))
+					c.Fns["i1"] = inv(par("T1", "req", 0))
+					c.Fns["i3"] = inv(append([]cat.Param(nil), lay...)...)
+					c.Note = fmt.Sprintf("softnest c1=%v c2=%v layout=%d c3=%s", p1, p2, li, s3)
+					out = append(out, finish(c, opts, cb))
+				}
+			}
+		}
+	}
+	return out
+}
+
 // Digraphs is the cycle motif: n constructors, constructor i provides T<i> and has one
 // parameter per out-edge of a digraph on n nodes (self-loops included); every digraph with
 // index in [lo, hi) out of 2^(n*n); placements and edge kind chosen from the index and r.
